@@ -72,7 +72,8 @@ def check_empty_match(cx, facts, fn, sites, rep):
         if not accs:
             continue
         at = facts.atoms(facts.effective_ctx(s.ctx, fw), fw) + facts.atoms(s.tmpl.ctx, fw)
-        guarded = any(a[0] == 'empty' and a[2] is False for a in at)
+        from ..emptiness import nonempty_evidence
+        guarded = nonempty_evidence(at)
         if not guarded:
             if refusal is None:
                 refusal = False
